@@ -711,7 +711,21 @@ pub fn run(ctx: &mut Ctx, mode: AMode) -> RunResult {
 
     if mode == AMode::C19 {
         // the deserializer's own setter, over the same edge table
-        let v = draw_chunk_size(ctx, true);
+        // the setter takes a usize: also values beyond 32 bits, in particular ones whose low 32
+        // bits look like a legal size
+        let v: u64 = if ctx.ch.chance("op.arg.csz64", 1, 4) {
+            ctx.probe("a.deser_chunk_size_beyond_u32");
+            match ctx.ch.draw("op.arg.csz64k", 6) {
+                0 => (1u64 << 32) + 1,
+                1 => (1u64 << 32) + 128,
+                2 => 1u64 << 32,
+                3 => u64::MAX,
+                4 => (1u64 << 32) + ctx.ch.range("op.arg.cszv", 1, 0x7FFF_FFFF),
+                _ => ((1 + ctx.ch.draw("op.arg.cszhi", 1 << 20)) << 32) + ctx.ch.draw("op.arg.cszv", 1 << 32),
+            }
+        } else {
+            draw_chunk_size(ctx, true) as u64
+        };
         let mut de = ChunkDeserializer::new();
         let r = de.set_max_chunk_size(v as usize);
         ctx.tr(|| format!("  deserializer.set_max_chunk_size({}) -> {}", v, if r.is_ok() { "Ok" } else { "Err" }));
